@@ -26,6 +26,9 @@ def cases(tier, rng):
         for mode in (("target-closes-wait", "app-closes", "target-closes") if c == "forward" else ("target-closes-wait",)):
             line = "c14 %s %d %s" % (c, n, mode)
             cs.append({"line": line, "key": line, "model": False, "tags": {"carrier": c, "n": n, "mode": mode}})
+    for c in (["tcp", "ws", "kcp"] if thorough else ["tcp"]):
+        line = "c14 %s %d refused" % (c, n)
+        cs.append({"line": line, "key": line, "model": False, "tags": {"carrier": c, "n": n, "mode": "refused"}})
     cs.append({"line": "c14 tcp 1 read-timeout", "key": "c14 read-timeout", "model": False, "tags": {"carrier": "memory", "n": 1, "mode": "read-timeout"}})
     if thorough:
         cs.append({"line": "c14 tcp 500 app-closes", "key": "c14 tcp 500", "tags": {"carrier": "tcp", "n": 500, "mode": "app-closes"}})
